@@ -453,6 +453,15 @@ class Monitor:
             org = self.fp.get('invalid value') or self.fp.get('divide by zero') or 'unknown'
             if org == 'node._evaluate' and getattr(self, 'nan_op', None):
                 org = '%s:%s' % (org, self.nan_op)          # the tree operator that first produced a non-finite value
+            # recorded findings whose cause is crisp carry it in their key, so that the same site failing for ANOTHER reason is not masked:
+            if org in ('cs._generate_new_nests', 'fpa._global_pollination') and self.cfg.get('draws') not in ('gauss', 'mixed'):
+                org += ':without-a-scripted-zero-deviate'      # the recorded NaN needs a Gaussian draw that is exactly 0
+            if org == 'ihs.run':
+                try:
+                    if float((self.cfg.get('hyperparams') or {}).get('bw_min', 1.0)) != 0.0:
+                        org += ':bw_min-nonzero'               # the recorded NaN is log(0 / bw_max) for bw_min = 0
+                except (TypeError, ValueError):
+                    pass
             if org == 'rpso._update_velocity' and float(np.max(self.hi - self.lo)) < 3e5:
                 # recorded finding (h) needs a velocity component of the order of LIGHT_SPEED = 3e5, i.e. a box at least that wide
                 org += ':box-narrower-than-light-speed'
